@@ -499,7 +499,7 @@ def c05(ctx):
     ctx.replay("C05-with-lists", cases, FIELDS["C05"])
 
 
-def run_sharded_machine(ctx, module, cases, invariants, nshards=None, timeout=900):
+def run_sharded_machine(ctx, module, cases, invariants, nshards=None, timeout=900, extra_const=""):
     """Model-check a case-driven state machine spec (one behaviour per case)
     sharded over JVMs; returns the JSON documents its Emit invariant printed."""
     nshards = max(1, min(nshards or vlib.NCPU, len(cases)))
@@ -513,7 +513,7 @@ def run_sharded_machine(ctx, module, cases, invariants, nshards=None, timeout=90
         with open(os.path.join(d, "cases.ndjson"), "w") as f:
             for c in shards[k]:
                 f.write(json.dumps(c, separators=(",", ":")) + "\n")
-        cfg = "SPECIFICATION Spec\nCONSTANT CaseFile = \"cases.ndjson\"\nINVARIANTS %s\nCHECK_DEADLOCK FALSE\n" % " ".join(invariants)
+        cfg = "SPECIFICATION Spec\nCONSTANT CaseFile = \"cases.ndjson\"\n%s\nINVARIANTS %s\nCHECK_DEADLOCK FALSE\n" % (extra_const, " ".join(invariants))
         out, st = vlib.run_tlc(d, module, cfg, workers=1, timeout=timeout, heap="2g")
         if not st["ok"]:
             raise Undecided("model checking of spec/%s.tla failed:\n%s" % (module, vlib.tlc_error_excerpt(out, 50)))
@@ -561,6 +561,46 @@ def c06(ctx):
     for k in ("abstained_quirk", "rejected_by_compile", "ast_checked", "ast_mismatch"):
         rep.setdefault(k, 0)
     ctx.absorb("C06-fs-machine", rep)
+    names_machine(ctx, "C06")
+
+
+def names_machine(ctx, prop):
+    """RunFiles with processFilenames (spec/NamesFS.tla): model-checked, every behaviour replayed."""
+    cases = ctx.gen_cases("C06N")
+    docs, st = run_sharded_machine(ctx, "NamesFS", cases, ["NeverCrashes", "ArgsExist", "ContentsOnlyMove", "Emit"],
+                                   extra_const="CONSTANT Dev = {}")
+    if len(docs) != len(cases):
+        raise Undecided("NamesFS.tla emitted %d final states for %d cases" % (len(docs), len(cases)))
+    ctx.add_mc("NamesFS", st, "NeverCrashes, ArgsExist and ContentsOnlyMove in every state of every -filenames behaviour")
+    # sensitivity: arguments that keep their old name after a rename make a later command stat a missing file
+    d = ctx.scratch.sub("names_sens")
+    two = [c for c in cases if len(c["cmds"]) > 1][:400]
+    with open(os.path.join(d, "cases.ndjson"), "w") as f:
+        for c in two:
+            f.write(json.dumps(c, separators=(",", ":")) + "\n")
+    out, st2 = vlib.run_tlc(d, "NamesFS", 'SPECIFICATION Spec\nCONSTANT CaseFile = "cases.ndjson"\nCONSTANT Dev = {"StaleArgs"}\n'
+                            'INVARIANT NeverCrashes\nCHECK_DEADLOCK FALSE\n', workers=1, timeout=600, heap="2g")
+    if "Invariant NeverCrashes is violated" not in out:
+        raise Undecided("sensitivity run of NamesFS.tla with StaleArgs did not violate NeverCrashes:\n" + vlib.tlc_error_excerpt(out, 20))
+    ctx.sensitivity.append({"switch": ["StaleArgs"], "expected_violation": "NeverCrashes", "tlc_reported": "NeverCrashes", "ok": True,
+                            "module": "NamesFS"})
+    d = ctx.scratch.sub("rp_names")
+    cp, ep, rp = [os.path.join(d, x) for x in ("cases.ndjson", "expect.ndjson", "report.json")]
+    with open(cp, "w") as f:
+        for c in cases:
+            f.write(json.dumps(c, separators=(",", ":")) + "\n")
+    with open(ep, "w") as f:
+        for e in docs:
+            f.write(e + "\n")
+    p = subprocess.run([ctx.get_harness(), "replayfs", "-names", "-property", prop, "-cases", cp, "-expect", ep, "-report", rp,
+                        "-replaydir", os.path.join(vlib.VERIF, "replays", prop)], capture_output=True, text=True)
+    if p.returncode != 0 or not os.path.exists(rp):
+        raise Undecided("replayfs -names failed: " + p.stderr[-1500:])
+    with open(rp) as f:
+        rep = json.load(f)
+    for k in ("abstained_quirk", "rejected_by_compile", "ast_checked", "ast_mismatch"):
+        rep.setdefault(k, 0)
+    ctx.absorb(prop + "-names-machine", rep)
 
 
 FIELDS["C11"] = ["spans", "repl", "panic"]
@@ -736,6 +776,8 @@ def c09(ctx):
     bcases = [{"id": i + 1, "cmds": p, "texts": [big(n) for n in sizes]} for i, p in enumerate(progs)]
     bexps = [{"id": c["id"], "r": [{"t": t, "ms": [], "firm": False, "undef": False, "noret": False} for t in c["texts"]]} for c in bcases]
     ctx.replay("C09-big-inputs", bcases, FIELDS["C09"], mode="both", exps=bexps, want_ast=False)
+    # RunFiles on file NAMES (renames between commands): returns normally
+    names_machine(ctx, "C09")
 
 
 FIELDS["C10"] = ["budget", "hang", "crash", "panic", "spans"]
